@@ -12,8 +12,8 @@ Proof. unfold final, obs_of. destruct (run s0 ls); reflexivity. Qed.
 
 Lemma final_conn ls : P_conn ls (obs_of ls).
 Proof. exact (model_P_conn _ _ _ (run_eta ls)). Qed.
-Lemma final_stream ls : single_init ls = true -> P_stream ls (obs_of ls).
-Proof. intros H. exact (model_P_stream _ _ _ H (run_eta ls)). Qed.
+Lemma final_stream ls : P_stream ls (obs_of ls).
+Proof. exact (model_P_stream _ _ _ (run_eta ls)). Qed.
 Lemma final_credit ls : P_credit ls (obs_of ls).
 Proof. exact (model_P_credit _ _ _ (run_eta ls)). Qed.
 Lemma final_strand ls : P_strand ls (obs_of ls).
@@ -123,7 +123,7 @@ Definition w_ex : list label :=
     mk Sv (FData 1 true (bytes_n 2) None); mk Cl (FSettings [(1, 0)])%N; mk Sv FSettingsAck;
     mk Sv (FHeaders 1 true true None 4 false) ].
 Lemma example_ok :
-  rfc_valid w_ex = true /\ single_init w_ex = true /\ length (obs_of w_ex) = length w_ex
+  rfc_valid w_ex = true /\ length (obs_of w_ex) = length w_ex
   /\ c09_ok w_ex (obs_of w_ex) = true /\ c08_ok w_ex (obs_of w_ex) = true
   /\ sents Sv 1 (concat (obs_of w_ex)) = 3 /\ creds Cl 1 (concat (obs_of w_ex)) = 12.
 Proof. vm_compute. repeat split; reflexivity. Qed.
